@@ -12,6 +12,8 @@ struct GSnap { struct { long i; } _value; struct { unsigned short _minor; unsign
 struct GSnap g_eval_snap[G_MAXEVAL];
 struct Expression *g_eval_node[G_MAXEVAL];
 struct Value g_operand0, g_operand1, g_operand2, g_operand3;   /* the objects the children return (distinct, static: keeps solver terms simple) */
+struct Value g_tab_elem;              /* stands for every element of the table a member method receives */
+unsigned long g_eval_size[G_MAXEVAL]; /* size() of the container payload (string, bytes, table) each child returned */
 long g_eval_payload;                 /* havocked by every child evaluation: the payload bits it returns */
 
 /* payload objects of non-null heap-typed values: only for the payload types the job names
@@ -39,7 +41,8 @@ unsigned long g_eval_str[G_MAXEVAL][4];
 #define ENS_PAYLOAD_LITERAL __CPROVER_ensures((__exc == 0 && V_IS(__CPROVER_return_value, LITERAL) && !V_ISNULL(__CPROVER_return_value)) ==> \
    (IS_FRESH(__CPROVER_return_value->_value.p, sizeof(struct std_string)) && \
     SET_EQ(g_eval_str[__CPROVER_old(g_eval_n)][0], STR_W(__CPROVER_return_value->_value.p, 0)) && SET_EQ(g_eval_str[__CPROVER_old(g_eval_n)][1], STR_W(__CPROVER_return_value->_value.p, 1)) && \
-    SET_EQ(g_eval_str[__CPROVER_old(g_eval_n)][2], STR_W(__CPROVER_return_value->_value.p, 2)) && SET_EQ(g_eval_str[__CPROVER_old(g_eval_n)][3], STR_W(__CPROVER_return_value->_value.p, 3))))
+    SET_EQ(g_eval_str[__CPROVER_old(g_eval_n)][2], STR_W(__CPROVER_return_value->_value.p, 2)) && SET_EQ(g_eval_str[__CPROVER_old(g_eval_n)][3], STR_W(__CPROVER_return_value->_value.p, 3)) && \
+    SET_EQ(g_eval_size[__CPROVER_old(g_eval_n)], STR_W(__CPROVER_return_value->_value.p, 1)) && g_eval_size[__CPROVER_old(g_eval_n)] <= 0x7fffffffffffffful))
 #define STR_SAME(o, k) (STR_W((o)->_value.p, 0) == g_eval_str[k][0] && STR_W((o)->_value.p, 1) == g_eval_str[k][1] && STR_W((o)->_value.p, 2) == g_eval_str[k][2] && STR_W((o)->_value.p, 3) == g_eval_str[k][3])
 #define FRAME_STR(o, snap, k) ((V_IS(snap, LITERAL) && !V_ISNULL(snap)) ==> STR_SAME(o, k))
 #else
@@ -48,7 +51,8 @@ unsigned long g_eval_str[G_MAXEVAL][4];
 #define FRAME_STR(o, snap, k) 1
 #endif
 #ifdef PAYLOAD_TABCHAR
-#define ENS_PAYLOAD_TABCHAR __CPROVER_ensures((__exc == 0 && V_IS(__CPROVER_return_value, TABCHAR) && !V_ISNULL(__CPROVER_return_value)) ==> IS_FRESH(__CPROVER_return_value->_value.p, sizeof(struct vec_char)))
+#define ENS_PAYLOAD_TABCHAR __CPROVER_ensures((__exc == 0 && V_IS(__CPROVER_return_value, TABCHAR) && !V_ISNULL(__CPROVER_return_value)) ==> \
+   (IS_FRESH(__CPROVER_return_value->_value.p, sizeof(struct vec_char)) && SET_EQ(g_eval_size[__CPROVER_old(g_eval_n)], ((unsigned long *)__CPROVER_return_value->_value.p)[1]) && g_eval_size[__CPROVER_old(g_eval_n)] <= 0x7fffffffffffffful))
 #else
 #define ENS_PAYLOAD_TABCHAR
 #endif
@@ -57,7 +61,22 @@ unsigned long g_eval_str[G_MAXEVAL][4];
 #else
 #define ENS_PAYLOAD_COMPLEX
 #endif
-#define ENS_PAYLOADS ENS_PAYLOAD_IMAGINARY ENS_PAYLOAD_LITERAL ENS_PAYLOAD_TABCHAR ENS_PAYLOAD_COMPLEX
+#ifdef PAYLOAD_COLLECTION
+/* a non-null table value owns a Collection whose table type is the value's type */
+#define ENS_PAYLOAD_COLLECTION __CPROVER_ensures((__exc == 0 && V_LEVEL(__CPROVER_return_value) > 0 && !V_ISNULL(__CPROVER_return_value)) ==> \
+   (IS_FRESH(__CPROVER_return_value->_value.p, sizeof(struct Collection)) && \
+    SET_EQ(((struct Collection *)__CPROVER_return_value->_value.p)->_type._major, V_MAJOR(__CPROVER_return_value)) && \
+    SET_EQ(((struct Collection *)__CPROVER_return_value->_value.p)->_type._minor, V_MINOR(__CPROVER_return_value)) && \
+    SET_EQ(((struct Collection *)__CPROVER_return_value->_value.p)->_type._level, V_LEVEL(__CPROVER_return_value)) && \
+    SET_EQ(g_eval_size[__CPROVER_old(g_eval_n)], ((unsigned long *)&((struct Collection *)__CPROVER_return_value->_value.p)->v)[1]) && g_eval_size[__CPROVER_old(g_eval_n)] <= 0xfffffffful && \
+    (__CPROVER_old(g_eval_n) == 0 ==> RECEIVER_TABLE_INV((struct Collection *)__CPROVER_return_value->_value.p))))
+#ifndef RECEIVER_TABLE_INV
+#define RECEIVER_TABLE_INV(c) 1
+#endif
+#else
+#define ENS_PAYLOAD_COLLECTION
+#endif
+#define ENS_PAYLOADS ENS_PAYLOAD_IMAGINARY ENS_PAYLOAD_LITERAL ENS_PAYLOAD_TABCHAR ENS_PAYLOAD_COMPLEX ENS_PAYLOAD_COLLECTION
 
 /* Value& Expression::value(Context&) -- any node, as seen by its parent.
  * Normal return: a valid value of ANY tag, null or not, temporary or variable-owned.
@@ -65,7 +84,7 @@ unsigned long g_eval_str[G_MAXEVAL][4];
 struct Value *VCALL_Expression_value(struct Expression *e, struct Context *ctx)
 __CPROVER_requires(__exc == 0)
 __CPROVER_requires(g_eval_n >= 0 && g_eval_n < G_MAXEVAL)
-__CPROVER_assigns(g_eval_n, g_eval_ret[g_eval_n], g_eval_snap[g_eval_n], g_eval_node[g_eval_n], g_eval_payload, __exc, __exc_type, __exc_obj ASG_PAYLOAD_IMAGINARY ASG_PAYLOAD_LITERAL)
+__CPROVER_assigns(g_eval_n, g_eval_ret[g_eval_n], g_eval_snap[g_eval_n], g_eval_node[g_eval_n], g_eval_size[g_eval_n], g_eval_payload, __exc, __exc_type, __exc_obj ASG_PAYLOAD_IMAGINARY ASG_PAYLOAD_LITERAL)
 __CPROVER_assigns(g_eval_n == 0: VALUE_FIELDS(&g_operand0); g_eval_n == 1: VALUE_FIELDS(&g_operand1); g_eval_n == 2: VALUE_FIELDS(&g_operand2); g_eval_n == 3: VALUE_FIELDS(&g_operand3))
 __CPROVER_ensures(__exc == 0 || __exc == 1)
 __CPROVER_ensures(__exc == 1 ==> (PTR_EQ(__exc_type, G2C_EXC_RuntimeError) && IS_FRESH(__exc_obj, sizeof(struct RuntimeError)) && g_eval_n == __CPROVER_old(g_eval_n)))
@@ -99,6 +118,9 @@ __CPROVER_ensures(__exc == 0)
 __CPROVER_ensures(g_type_n == __CPROVER_old(g_type_n) + 1 && PTR_EQ(g_type_node[__CPROVER_old(g_type_n)], e))
 __CPROVER_ensures(PTR_EQ(__CPROVER_return_value, &g_stype[__CPROVER_old(g_type_n)]) && g_stype[__CPROVER_old(g_type_n)]._major <= IMAGINARY)
 ;
+/* bool Expression::isConst() const : any answer */
+_Bool __g2c_nondet_bool(void);
+_Bool VCALL_Expression_isConst(const struct Expression *e) { (void)e; return __g2c_nondet_bool(); }
 #define ST1 (&g_stype[0])
 #define ST2 (&g_stype[1])
 #endif
